@@ -34,6 +34,9 @@ STRENGTHENED = {
     'C11-6': 'links made of thousands of repetitions of a short scheme-like prefix (feed:, view-source:, ../, //) in the join pairs',
     'C09-8': 'MLSD time-vals with fractions of 1 to 12 digits (RFC 3659 allows any number) among the listing lines',
     'C15-8': 'every PathNamer of the C15 cases is now built by the real FileWriterSetupTask from --restrict-file-names / -nd / -x values (the option translation is inside the comparison; it replaced a static look at the os_type assignment): now a concrete input',
+    'C18-10': 'one start URL of a fifth of the crawls (and of two forced crawls in every run) is on a host whose connections are refused / whose name does not resolve, with --retry-connrefused / --retry-dns-error; every attempt is logged like a request and the model answers Fail',
+    'C18-3': '(regression after a generator change) the first five crawls of every run have forced configurations: robots.txt of the start host answering 503 / rules, an unreachable start host of either kind',
+    'C19-9': 'every (gzip / zlib / raw) x (until-close / ignore-length / Content-Length / chunked) pair carries a truncated stream in every run (was: a random draw, about 2 % of the messages per pair)',
     'C04-3': 'the scripted connection can be re-connected by the code (the scripted server goes on with its script) and a tenth of the follow-up exchanges find their persistent connection dropped: now a concrete input',
     'C09-4': 'srcset values with empty candidates (trailing / doubled commas, empty, white space only) among the HTML parts: now a concrete input',
     'C09-5': 'CSS escape sequences, among them values above U+10FFFF, in the CSS documents and style attributes: now a concrete input',
